@@ -42,6 +42,8 @@ def parseRData (names : Array Name) (s : String) : Option RData :=
       else if k == 'C' then names[v]?.map .cname
       else if k == 'S' then some (.soa v)
       else if k == 'T' then some (.txt v)
+      else if k == 'V' then names[v]?.map .srv
+      else if k == 'R' then some (.rrsig v)
       else none
   | [] => none
 
@@ -62,7 +64,9 @@ def parseResp (names : Array Name) (s : String) : Option Response :=
     let answers ← parseList an "+" (parseRec names)
     let authorities ← parseList au "+" (parseRec names)
     let additionals ← parseList ad "+" (parseRec names)
-    pure { rcode, aa := aa == "1", answers, authorities, additionals }
+    -- a trailing `t` / `T` marks a truncated answer (over UDP only / over TCP as well): the pool asks the
+    -- same server again over TCP; `t` is the plain answer for the model, `T` lines have no model side
+    pure { rcode, aa := aa.startsWith "1", answers, authorities, additionals }
   | _ => none
 
 structure Internet where
@@ -111,6 +115,8 @@ def showRecord (r : Record) : String :=
     | .cname n => "C" ++ showName n
     | .soa m => "S" ++ toString m
     | .txt t => "T" ++ toString t
+    | .srv n => "V" ++ showName n
+    | .rrsig c => "R" ++ toString c
 
 def dedupSorted : List String → List String
   | a :: b :: rest => if a == b then dedupSorted (b :: rest) else a :: dedupSorted (b :: rest)
@@ -210,9 +216,13 @@ def handleRes (t : List String) : Option String :=
         let ty ← ty.toNat?
         pure (⟨name, ty⟩ : Query)
       | _ => none
+    -- the harness runs every fourth internet security-aware, with the client's DO bit set (same rule here)
+    let nQueries := ((queries.splitOn "|").map fun part =>
+      if part == "-" then 0 else (part.splitOn ";").length).foldl (· + ·) 0
+    let aware := (names.size + table.length + nQueries) % 4 == 0
     let cfg : Config := {
       recursionLimit := rl, nsRecursionLimit := nl, roots,
-      serverFilter := ⟨allowS, denyS⟩, answerFilter := ⟨allowA, denyA⟩ }
+      serverFilter := ⟨allowS, denyS⟩, answerFilter := ⟨allowA, denyA⟩, dnssecOk := aware }
     let w : Internet := { names, groups := groups.toArray, table }
     match queries.splitOn "|" with
     | [qs] => do
@@ -242,7 +252,10 @@ def handleRes (t : List String) : Option String :=
 /-- `stub <names> <table> <query>` : alias chasing of the stub resolver -/
 def handleStub (t : List String) : Option String :=
   match t with
-  | [names, table, query] => do
+  | names :: table :: query :: flags => do
+    -- optional 4th token: `p0` = preserve_intermediates off (a trailing `x` = the harness looks the name up
+    -- twice; the second lookup is implementation-vs-oracle only)
+    let pi := !(flags.any fun f => f.startsWith "p0")
     let names ← parseList names "," parseName
     let names := names.toArray
     let table ← parseList table ";" fun e => match e.splitOn "=" with
@@ -266,7 +279,7 @@ def handleStub (t : List String) : Option String :=
       match table.find? fun e => e.1.same q with
       | some e => .ok e.2
       | none => .ok { rcode := 3, aa := true, answers := [], authorities := [], additionals := [] }
-    let (ok, n) := stubResolve up q
+    let (ok, n) := stubResolve up q pi
     pure (boolStr ok ++ " n=" ++ toString n)
   | _ => none
 
@@ -286,6 +299,7 @@ def step (s : State) (toks : List String) : State × String :=
   match toks with
   | "res" :: rest => (s, (handleRes rest).getD "bad-op")
   | "conc" :: rest => (s, (handleRes rest).getD "bad-op")
+  | "val" :: _ => (s, "~")
   | "acl" :: rest => (s, (handleAcl rest).getD "bad-op")
   | "stub" :: rest => (s, (handleStub rest).getD "bad-op")
   | _ => (s, "bad-op")
